@@ -598,19 +598,50 @@ def classify(ctx, kind, rec, comps, seedinfo):
                       observed={"post": rec.get("post"), "acc": rec.get("acc")}, oracle="first differing state component / accessor value")
 
 
+# class -> (generated modules, spec module, module of Check.v)
+PARTS = {"LADMM": (["C11_Ladmm"], "Spec_LADMM", "LA"), "PADMM": (["C11_Padmm"], "Spec_PADMM", "PA"),
+         "NLPADMM": (["C11_Nlpadmm"], "Spec_NLPADMM", "NL"), "PDHG": (["C11_Functional", "C11_Pdhg"], "Spec_PDHG", "PD"),
+         "PGM": (["C11_Pgm", "C11_Apgm"], "Spec_PGM", "PG"), "APGM": (["C11_Pgm", "C11_Apgm"], "Spec_PGM", "AP"),
+         "ADMM": (["C11_Admm"], "Spec_ADMM", "AD")}
+
+
 def build_fallback():
-    """The theorem files no longer compile (the generated step differs from the documented one):
-    build definition-only copies of Spec_*.v / Check.v under build/C11/specdef (logical path
-    SVX) so that the documented equations can still be evaluated against the implementation
-    and a concrete failing input found.  Returns the case-file header to use."""
+    """The theorem files (or some generated unit) no longer compile: build definition-only copies
+    of Spec_*.v / Check.v under build/C11/specdef (logical path SVX), restricted to the classes
+    whose generated module still compiles, so that the documented equations can still be
+    evaluated against the implementation and a concrete failing input found.
+    Returns (case-file header, directory, classes without an executable model)."""
     import re
     from vf.common import COQ, BUILD, COQFLAGS
     d = BUILD / "C11" / "specdef"
     d.mkdir(parents=True, exist_ok=True)
-    names = ["Spec_LADMM", "Spec_PADMM", "Spec_NLPADMM", "Spec_PDHG", "Spec_PGM", "Spec_ADMM", "Check"]
+    coq_make(["theories/C11/Exec.vo", "theories/C11/SpecBase.vo"])
+    bad = set()
+    for kind, (gens, spec, mod) in PARTS.items():
+        try:
+            coq_make([f"gen/{g}.vo" for g in gens])
+        except Broken:
+            bad.add(kind)
+    good = [k for k in PARTS if k not in bad]
+    if not good:
+        raise Broken("no generated unit compiles")
+    dead_gen = {g for k in bad for g in PARTS[k][0]} - {g for k in good for g in PARTS[k][0]}
+    dead_spec = {PARTS[k][1] for k in bad} - {PARTS[k][1] for k in good}
+
+    def strip_imports(txt):
+        for g in dead_gen:
+            txt = re.sub(r"\b" + g + r"\b ?", "", txt)
+        for sp in dead_spec:
+            txt = re.sub(r"\b(C11\.)?" + sp + r"\b ?", "", txt)
+        return txt
+    names = sorted({PARTS[k][1] for k in good}) + ["Check"]
     for n in names:
         txt = (COQ / "theories" / "C11" / f"{n}.v").read_text()
         txt = re.sub(r"^[ \t]*(Theorem|Corollary|Lemma)\b.*?\bQed\.", "", txt, flags=re.S | re.M)
+        if n == "Check":
+            for k in bad:
+                txt = re.sub(r"^Module " + PARTS[k][2] + r"\..*?^End " + PARTS[k][2] + r"\.", "", txt, flags=re.S | re.M)
+        txt = strip_imports(txt)
         txt = re.sub(r"From SV Require (Import )?C11\.Spec_\w+( C11\.Spec_\w+)*\.",
                      lambda m: "From SVX Require " + (m.group(1) or "") + " ".join(
                          w.replace("C11.", "") for w in m.group(0).split()[3 if not m.group(1) else 4:]), txt)
@@ -620,7 +651,11 @@ def build_fallback():
                            capture_output=True, text=True, cwd=d)
         if p.returncode != 0:
             raise Broken("definition-only copy of " + n + " does not compile", (p.stdout + p.stderr)[-2000:])
-    return HEADER.replace("C11.Check", "C11.Exec").replace("From SV Require C11.Spec_PGM.", "From SVX Require Spec_PGM Check.\nImport Check."), d
+    hdr = strip_imports(HEADER).replace("C11.Check", "C11.Exec")
+    hdr = hdr.replace("From SV Require .\n", "")
+    hdr = re.sub(r"From SV Require\s*\.\n", "", hdr)
+    hdr += "From SVX Require " + ("Spec_PGM " if "Spec_PGM" not in dead_spec else "") + "Check.\nImport Check.\n"
+    return hdr, d, bad
 
 
 def run_py2coq(ctx):
@@ -644,19 +679,19 @@ def run(ctx: Ctx):
     if not getattr(ctx, "no_proofs", False):
         ctx.proofs()
         try:
-            coq_make(["Findings/C11_residual_arg.vo"])
+            coq_make(["Findings/C11_ladmm_dual_residual.vo"])
         except Broken as b:
-            ctx.notes.append("finding no longer reproduces in the generated model (Findings/C11_residual_arg.v): " + b.what)
-    header, extra = HEADER, []
+            ctx.notes.append("finding no longer reproduces in the generated model (Findings/C11_ladmm_dual_residual.v): " + b.what)
+    header, extra, nomodel = HEADER, [], set()
     try:
         coq_make(["theories/C11/Check.vo"])
     except Broken as b:
         try:
-            coq_make(["gen/C11_%s.vo" % u for u in ("Functional", "Ladmm", "Padmm", "Nlpadmm", "Pdhg", "Pgm", "Apgm", "Admm")]
-                     + ["theories/C11/Exec.vo", "theories/C11/SpecBase.vo"])
-            header, dd = build_fallback()
+            header, dd, nomodel = build_fallback()
             extra = ["-Q", str(dd), "SVX"]
-            ctx.notes.append("theorem files broken; searching with definition-only copies of the specifications")
+            ctx.notes.append("theorem files broken; searching with definition-only copies of the specifications"
+                             + (f" (no executable model for {sorted(nomodel)}: their generated unit does not compile; "
+                                "only exceptions raised by their accessors are reported)" if nomodel else ""))
         except Broken as b2:
             ctx.obligation(False, "executable model C11/Check.v builds against the regenerated definitions", b.detail + b2.detail)
             return
@@ -672,7 +707,7 @@ def run(ctx: Ctx):
             rec["case_seed"] = sub
             cases.append((term, rec))
             ctx.count(f"{kind}-{rec['space']}", {k: rec[k] for k in rec if k not in ("pre", "post", "acc")})
-        bad = eval_cases("C11_" + kind, cases, header, extra)
+        bad = {} if kind in nomodel else eval_cases("C11_" + kind, cases, header, extra)
         for idx in range(len(cases)):
             if idx in bad or cases[idx][1].get("raised"):
                 classify(ctx, kind, cases[idx][1], bad.get(idx, []), seedinfo)
